@@ -172,6 +172,21 @@ ResetUp ==
     /\ gAcc' = <<>> /\ gDel' = <<>> /\ gGood' = <<>> /\ gAdv' = 7 /\ gCred' = <<>> /\ gRecov' = FALSE
     /\ UNCHANGED <<enabled, lrtyMay, kaMay>>
 
+\* The `ss` clock domain is reset (ResetSignal): every register returns to its power-on value.  With the link
+\* up this is a restart point like ResetUp, except that a command in flight is cut off (it never completes);
+\* with the link down it leaves the power-on state, which advertises from sequence 0 at the next link-up.
+DomainReset ==
+    /\ ev' = [e |-> "dreset"]
+    /\ cur' = "none" /\ lrtyMay' = FALSE /\ kaMay' = FALSE /\ lrtyOwed' = FALSE /\ kaOwed' = FALSE
+    /\ IF enabled
+         THEN /\ expSeq' = 0 /\ pendRst' = FALSE /\ buf' = <<>>
+              /\ acks' = <<7>> /\ advPending' = TRUE /\ credOwed' = NBuf /\ nextCred' = 0 /\ adv' = 0
+              /\ ignore' = FALSE /\ lbadOwed' = FALSE
+              /\ gAcc' = <<>> /\ gDel' = <<>> /\ gGood' = <<>> /\ gAdv' = 7 /\ gCred' = <<>> /\ gRecov' = FALSE
+              /\ UNCHANGED enabled
+         ELSE /\ pendRst' = TRUE
+              /\ UNCHANGED <<enabled, expSeq, buf, acks, advPending, credOwed, nextCred, adv, ignore, lbadOwed, gvars>>
+
 \* `enable` rises: the receive state is fresh; the sequence-number advertisement and one credit
 \* per buffer are owed.  (C38)
 LinkUp ==
@@ -285,7 +300,7 @@ LcrdLetters == enabled =>
 LbadOnlyWhenIgnoring == lbadOwed => ignore
 
 \* C38: right after the link came up the state is fresh.
-FreshAfterUp == [][(ev'.e = "up" \/ ev'.e = "reset_up") =>
+FreshAfterUp == [][(ev'.e = "up" \/ ev'.e = "reset_up" \/ (ev'.e = "dreset" /\ enabled)) =>
     /\ buf' = <<>> /\ ~ignore' /\ ~lbadOwed' /\ ~lrtyOwed' /\ ~kaOwed'
     /\ acks' = <<Prev(expSeq')>> /\ advPending' /\ credOwed' = NBuf /\ nextCred' = 0 /\ adv' = 0]_vars
 
